@@ -7,18 +7,25 @@
 (* thread really holds; descriptors handed out must be the model's.           *)
 EXTENDS LibecConc, Json, IOUtils
 Tr == ndJsonDeserialize(IOEnv.TRACE)
-VARIABLES l, skip
-tvars == <<vars, l, skip>>
+VARIABLES l, skip,
+          holds,      \* thread -> descriptor it was handed and has not unlinked yet (0: none); independent of the model
+          shared1,    \* the pre-existing instance with descriptor 1 is live in this scenario
+          skip0       \* before the first scenario header
+tvars == <<vars, l, skip, holds, shared1, skip0>>
+HeldOK(h, p) == CASE HeldAt(p) = 1 -> h \in {1, 2, 3, 5, 6, 7}
+                  [] HeldAt(p) = 2 -> h \in {2, 3, 6, 7}
+                  [] HeldAt(p) = 4 -> h \in {4, 5, 6, 7}
+                  [] OTHER -> TRUE
 Bump(i) == TLCSet(i, TLCGet(i) + 1)
 ASSUME \A i \in 1..6 : TLCSet(i, 0)
 Report(why) == PrintT("VIOL " \o ToString(l) \o " " \o ToJson({why}))
 TT == TRUE
-TInit == l = 1 /\ skip = TRUE /\ InitWith(FALSE)
+TInit == l = 1 /\ skip = TRUE /\ skip0 = TRUE /\ shared1 = FALSE /\ holds = [t \in All |-> 0] /\ InitWith(FALSE)
 TNext ==
    /\ l <= Len(Tr) /\ l' = l + 1
    /\ LET ev == Tr[l] IN
       CASE ev.e = "Scn" ->
-             /\ Bump(1) /\ skip' = FALSE
+             /\ Bump(1) /\ skip' = FALSE /\ skip0' = FALSE /\ shared1' = (ev.pre = 1) /\ holds' = [t \in All |-> 0]
              /\ head' = (IF ev.pre = 1 THEN PreNode ELSE 0)
              /\ nxt' = [n \in AllNodes |-> 0]
              /\ idesc' = [n \in AllNodes |-> IF n = PreNode /\ ev.pre = 1 THEN 1 ELSE 0]
@@ -30,25 +37,37 @@ TNext ==
              /\ mine' = [t \in All |-> 0] /\ found' = [t \in All |-> 0] /\ bad' = "" /\ retTo' = [t \in All |-> "u_use"]
              /\ (ev.pre = 1 /\ ev.shared # 1 => Report("C18 pre-existing instance did not get descriptor 1"))
         [] ev.e = "Y" ->
-             IF skip THEN UNCHANGED <<vars, skip>>
-             ELSE IF ev.t \notin All THEN Report("C18 event of an unknown thread") /\ UNCHANGED <<vars, skip>>
-             ELSE IF ENABLED ActByLabel(ev.t, ev.p)
-                  THEN /\ ActByLabel(ev.t, ev.p) /\ Bump(2) /\ UNCHANGED skip
-                       /\ (ev.h # HeldAt(ev.p) => Report("C18 step " \o ev.p \o " performed without the locks the protocol requires"))
-                       /\ (bad' # "" /\ bad = "" => Report("C18 " \o bad'))
-                  ELSE /\ Report("C18 step " \o ev.p \o " of thread " \o ToString(ev.t) \o " is not allowed by the protocol in this state (pc = " \o pc[ev.t] \o ")")
-                       /\ skip' = TRUE /\ UNCHANGED vars
+             \* (a) lock discipline, judged from the event alone: the step named by the hook is performed with the lock
+             \*     that protects what it touches (more locks than needed are fine; the exclusive lock serves a reader)
+             /\ (~skip0 /\ ev.t \in All /\ ~HeldOK(ev.h, ev.p) =>
+                    Report("C18 step " \o ev.p \o " performed without the locks the protocol requires"))
+             \* (b) the protocol model follows the thread as long as the code has the model's step structure; when it has
+             \*     not (a reordering that keeps the discipline is not a violation of C18) that is DRIFT: the model-based
+             \*     part of this scenario is lost, (a), the descriptor rule and the threads' own result checks remain
+             /\ IF skip \/ ev.t \notin All THEN UNCHANGED <<vars, skip>>
+                ELSE IF ENABLED ActByLabel(ev.t, ev.p)
+                     THEN /\ ActByLabel(ev.t, ev.p) /\ Bump(2) /\ UNCHANGED skip
+                          /\ (bad' # "" /\ bad = "" => Report("C18 " \o bad'))
+                     ELSE /\ PrintT("DRIFT " \o ToString(l)) /\ Bump(4)
+                          /\ skip' = TRUE /\ UNCHANGED vars
+             /\ (IF ev.p = "d_rm" /\ ev.t \in All THEN holds' = [holds EXCEPT ![ev.t] = 0] ELSE UNCHANGED holds)
+             /\ UNCHANGED <<shared1, skip0>>
         [] ev.e = "Desc" ->
-             /\ UNCHANGED <<vars, skip>>
-             /\ (~skip /\ ev.d # want[ev.t] => Report("C18 descriptor handed to a thread differs from the sequential allocation"))
-             /\ (~skip /\ \E u \in Threads : u # ev.t /\ nstate[NodeOf(u)] = "alloc" /\ idesc[NodeOf(u)] = ev.d => Report("C18 two live instances share a descriptor"))
+             /\ UNCHANGED <<vars, skip, shared1, skip0>>
+             /\ holds' = [u \in DOMAIN holds \cup {ev.t} |-> IF u = ev.t THEN ev.d ELSE holds[u]]
+             /\ (ev.d <= 0 => Report("C18 create handed out a non-positive descriptor"))
+             /\ (\E u \in DOMAIN holds : u # ev.t /\ holds[u] = ev.d => Report("C18 two live instances share a descriptor"))
+             /\ (ev.d = 1 /\ shared1 => Report("C18 two live instances share a descriptor"))
+             /\ (~skip /\ ev.d # want[ev.t] => PrintT("DRIFT " \o ToString(l)))
         [] ev.e = "End" ->
-             /\ UNCHANGED <<vars, skip>> /\ Bump(3)
-             /\ (~skip /\ \E t \in All : pc[t] \notin {"done", "c_gf0", "l_lock"} => Report("C18 a thread did not complete its protocol"))
-             /\ (~skip /\ (rwW # 0 \/ rwR # {} \/ gfMu # 0) => Report("C18 a lock is still held at the end of the scenario"))
-        [] ev.e = "Diverge" -> UNCHANGED <<vars, skip>> /\ Report("C18 the code blocks where the protocol allows the step (schedule replay diverged)")
-        [] ev.e = "ResultErr" -> UNCHANGED <<vars, skip>> /\ Report("C18 a thread's result differs from the sequential result")
-        [] OTHER -> UNCHANGED <<vars, skip>>
+             /\ UNCHANGED <<vars, skip, holds, shared1, skip0>> /\ Bump(3)
+             /\ (~skip /\ ((\E t \in All : pc[t] \notin {"done", "c_gf0", "l_lock"}) \/ rwW # 0 \/ rwR # {} \/ gfMu # 0)
+                    => PrintT("DRIFT " \o ToString(l)) /\ Bump(4))
+        \* the scheduler could not replay the model's schedule on this code (a thread did not reach its next yield point
+        \* in time): with a changed step structure that is expected; a real deadlock hangs the free-running stress instead
+        [] ev.e = "Diverge" -> UNCHANGED <<vars, skip, holds, shared1, skip0>> /\ PrintT("DRIFT " \o ToString(l)) /\ Bump(4)
+        [] ev.e = "ResultErr" -> UNCHANGED <<vars, skip, holds, shared1, skip0>> /\ Report("C18 a thread's result differs from the sequential result")
+        [] OTHER -> UNCHANGED <<vars, skip, holds, shared1, skip0>>
 TSpec == TInit /\ [][TNext]_tvars
 Accepted == /\ PrintT("COUNTS " \o ToJson([i \in 1..6 |-> TLCGet(i)]))
             /\ TLCGet("stats").diameter = Len(Tr) + 1
